@@ -18,7 +18,7 @@ import (
 
 var timedTs = []int64{1_000_000, 50_000_000, 1_000_000_000, 5_000_000_000}
 
-var irrKinds = []string{"ix", "ig", "io", "ih", "ie"}
+var irrKinds = []string{"ix", "ig", "io", "ih", "ih0", "ih3", "ih5", "ihx", "ie"}
 
 func schedAt(T int64, k int) int64 { return T * ((int64(1) << uint(k)) - 1) }
 
@@ -164,7 +164,7 @@ func genTimedScenario(r *Rng, v6 bool) (cScenario, []string) {
 		}
 	default:
 		tags = append(tags, "mixed")
-		kinds := []string{"rej", "rej", "rej", "acc", "can", "clo", "ix", "ig", "io", "ih", "ie"}
+		kinds := []string{"rej", "rej", "rej", "acc", "can", "clo", "ix", "ig", "io", "ih", "ih0", "ih3", "ih5", "ihx", "ie"}
 		cnt := r.Range(2, 9)
 		sameInstant := r.Chance(1, 3)
 		t0, _ := gridInstant(r, sc.T, r.Range(0, kmax))
@@ -176,11 +176,43 @@ func genTimedScenario(r *Rng, v6 bool) (cScenario, []string) {
 			sc.evs = append(sc.evs, cEvent{t: t, kind: kinds[r.Intn(len(kinds))], sync: syncFlag()})
 		}
 	}
+	// the conn's Close may report an error (and even leave the conn open)
+	for _, e := range sc.evs {
+		if e.kind == "clo" && r.Chance(1, 2) {
+			sc.cerr = r.Range(1, 2)
+			tags = append(tags, fmt.Sprintf("conn-close-error=%d", sc.cerr))
+			break
+		}
+	}
+	// a peer that answers from inside WriteTo: at the start of try k, nothing else at that instant
+	if pat == 1 && r.Chance(1, 3) {
+		k := r.Range(0, kmax)
+		t := schedAt(sc.T, k)
+		var keep []cEvent
+		for _, e := range sc.evs {
+			if e.t != t {
+				keep = append(keep, e)
+			}
+		}
+		kind := "acc"
+		if r.Chance(1, 4) {
+			kind = "rej"
+		}
+		sc.evs = append(keep, cEvent{t: t, kind: kind, sync: true, hook: true})
+		if sc.cap == 0 {
+			sc.cap = 1 // the loop must be able to deposit the reply while the caller is still in WriteTo
+		}
+		tags = append(tags, "reply-during-write", fmt.Sprintf("reply-during-write-try=%d", k))
+	}
 	hasCdl := false
 	for _, e := range sc.evs {
 		hasCdl = hasCdl || e.kind == "cdl"
 	}
-	if hasCdl || !r.Chance(1, 16) {
+	hasHook := false
+	for _, e := range sc.evs {
+		hasHook = hasHook || e.hook
+	}
+	if hasCdl || hasHook || !r.Chance(1, 16) {
 		// a context deadline fires when the clock reaches it: it is the first event of its instant
 		sort.SliceStable(sc.evs, func(i, j int) bool {
 			if sc.evs[i].t != sc.evs[j].t {
@@ -242,6 +274,19 @@ func enumTimed(v6 bool) func(emit func(string)) {
 				}
 				sc := cScenario{v6: v6, T: T, n: n, cap: 5, H: schedAt(T, E) + T}
 				emit(sc.line())
+				for k := 0; k < E; k++ {
+					for _, kind := range []string{"acc", "rej"} {
+						sc2 := sc
+						sc2.evs = []cEvent{{t: schedAt(T, k), kind: kind, sync: true, hook: true}}
+						emit(sc2.line())
+					}
+					for cerr := 1; cerr <= 2; cerr++ {
+						sc2 := sc
+						sc2.cerr = cerr
+						sc2.evs = []cEvent{{t: schedAt(T, k) + T/2, kind: "clo", sync: true}}
+						emit(sc2.line())
+					}
+				}
 				for k := 0; k < E; k++ {
 					s, d := schedAt(T, k), schedAt(T, k+1)
 					for _, t := range []int64{s, s + 1, s + (d-s)/2, d - 1, d} {
